@@ -2843,7 +2843,19 @@ def groupby_reduce(
             preferred_method = "map-reduce"
             chunks_cohorts = {}
 
+        method_was_chosen_automatically = method is None
         method = _choose_method(method, preferred_method, agg, by_, nax)
+
+        if (
+            method_was_chosen_automatically
+            and reindex.blockwise is True
+            and method in ("cohorts", "blockwise")
+            and not any_by_dask
+            and agg.chunk[0] is not None
+        ):
+            # The user asked for reindex=True; that is only possible with "map-reduce".
+            # Do not let the heuristics pick a plan that would then be rejected.
+            method = "map-reduce"
 
         if method == "cohorts" and not chunks_cohorts:
             # None of the expected groups is present in `by`, so there are no cohorts.
